@@ -1553,3 +1553,105 @@ Section JsSpec.
     - rewrite HP. reflexivity.
   Qed.
 End JsSpec.
+
+(* ------------------------------------------------------------------ byte level: non-empty byte chunks are always faithful *)
+
+(* an empty DECODED chunk only arises when a byte chunk ends inside a character; the next character is then not LF *)
+Lemma streaming_chunks_ok : forall chunks st ds tcr flag,
+  Forall (fun x => x <> []) chunks -> dwf st -> (d_needed st = 0%nat -> flag = tcr) ->
+  decode_streaming_from st chunks = Some ds -> js_chunks_ok tcr flag ds.
+Proof.
+  induction chunks as [|x r IH]; intros st ds tcr flag Hne Hw HP Hd; cbn [decode_streaming_from] in Hd.
+  - destruct (decode_flush st); inversion Hd. exact I.
+  - inversion Hne as [|? ? Hx Hr]; subst.
+    destruct (decode_chunk st x) as [[s st1]|] eqn:Ec; [|discriminate].
+    destruct (decode_streaming_from st1 r) as [l|] eqn:Er; [|discriminate]. inversion Hd; subst. clear Hd.
+    pose proof (decode_chunk_dwf _ _ _ _ Hw Ec) as Hw1. cbn [js_chunks_ok].
+    destruct s as [|c s'].
+    + apply (IH st1 l tcr false Hr Hw1); [|exact Er].
+      intros Hn. exfalso. exact (decode_chunk_silent _ _ _ Hw Hx Ec Hn).
+    + split.
+      * intros Hlf Htcr. destruct (Nat.eq_dec (d_needed st) 0) as [Hn|Hn]; [rewrite (HP Hn); exact Htcr|].
+        pose proof (decode_chunk_inside _ _ _ _ _ Hw Hn Ec) as Hc. cbn [starts_lf] in Hlf. apply N.eqb_eq in Hlf. subst c.
+        unfold LF in Hc. lia.
+      * apply (IH st1 l _ _ Hr Hw1); [reflexivity|exact Er].
+Qed.
+
+Section ByteFinal.
+  Variable split : str -> list str * bool.
+
+  (* C20_stream_is_bulk at the byte level: valid UTF-8, ANY partition into non-empty chunks (boundaries inside a CRLF pair or
+     inside a multi-byte character included), ANY continuation schedule: the stream path = the bulk path *)
+  Theorem js_stream_is_bulk c b0 chunks :
+    c_enc c = EncUtf8 -> valid_utf8 (concat (map fst chunks)) -> Forall (fun x => x <> []) (map fst chunks) ->
+    run_js_stream split c b0 chunks = run_js_bulk split c (concat (map fst chunks)).
+  Proof.
+    intros He Hv Hne. apply (js_stream_is_bulk_utf8 split c b0 chunks He Hv).
+    intros ds Hd. apply (streaming_chunks_ok (map fst chunks) d_init ds false false Hne dwf_init (fun _ => eq_refl) Hd).
+  Qed.
+
+  Theorem js_stream_is_bulk_binary c b0 chunks :
+    c_enc c <> EncUtf8 -> Forall (fun x => x <> []) (map fst chunks) ->
+    run_js_stream split c b0 chunks = run_js_bulk split c (concat (map fst chunks)).
+  Proof.
+    intros He Hne. apply (js_stream_is_bulk_latin1 split c b0 chunks He). apply js_chunks_ok_nonempty. exact Hne.
+  Qed.
+
+  (* ... and both are the specification applied to the decoded text *)
+  Theorem js_bulk_spec c blob text :
+    comment_ok c ->
+    (match c_enc c with EncUtf8 => decode_whole blob | _ => Some (decode_latin1 blob) end) = Some text ->
+    run_js_bulk split c blob = jresult_of_result (records_of_text split c text).
+  Proof.
+    intros Hc Hd. rewrite js_bulk_result, Hd, js_bulk_lines. apply js_lines_spec. exact Hc.
+  Qed.
+
+  Theorem js_decoded_spec c b0 chunks :
+    comment_ok c -> js_chunks_ok false false (map fst chunks) ->
+    run_js_decoded split c b0 chunks = jresult_of_result (records_of_text split c (concat (map fst chunks))).
+  Proof.
+    intros Hc Hok. rewrite js_decoded_result, (js_lines _ Hok). apply js_lines_spec. exact Hc.
+  Qed.
+
+  (* readers_agree (for C18): on the same text the Python reader (any pieces, any chunk size) and the JS reader (any chunks,
+     any schedule) compute the same value - the records_of_text specification: same records, header, NL, NR, the same
+     rfc error, and the same warning data *)
+  Theorem readers_agree c cs pieces b0 chunks :
+    (1 <= cs)%nat -> Forall (fun p => p <> []) pieces -> comment_ok c -> js_chunks_ok false false (map fst chunks) ->
+    concat pieces = concat (map fst chunks) ->
+    run_js_decoded split c b0 chunks = jresult_of_result (run_py split c cs pieces) /\
+    run_py split c cs pieces = records_of_text split c (concat pieces).
+  Proof.
+    intros Hcs Hne Hc Hok Heq. rewrite (js_decoded_spec c b0 chunks Hc Hok), (py_records split c cs pieces Hcs Hne), Heq. auto.
+  Qed.
+
+  (* the same for a UTF-8 byte stream on the JS side and the decoded text on the Python side *)
+  Theorem readers_agree_bytes c cs pieces b0 chunks text :
+    (1 <= cs)%nat -> Forall (fun p => p <> []) pieces -> comment_ok c -> c_enc c = EncUtf8 ->
+    Forall (fun x => x <> []) (map fst chunks) -> decode_whole (concat (map fst chunks)) = Some text -> concat pieces = text ->
+    run_js_stream split c b0 chunks = jresult_of_result (run_py split c cs pieces).
+  Proof.
+    intros Hcs Hne Hc He Hnb Hd Heq.
+    rewrite (js_stream_is_bulk c b0 chunks He (ex_intro _ text Hd) Hnb).
+    rewrite (js_bulk_spec c _ text Hc) by (rewrite He; exact Hd).
+    rewrite (py_records split c cs pieces Hcs Hne), Heq. reflexivity.
+  Qed.
+End ByteFinal.
+
+(* the two ports list their warnings in different orders; as sets they are the same *)
+Lemma warnings_same_set w : forall x, In x (py_warning_list w) <-> In x (js_warning_list w).
+Proof.
+  intros x. unfold py_warning_list, js_warning_list. rewrite !in_app_iff. tauto.
+Qed.
+
+(* the Python port applies the comment test to the assembled quoted_rfc record, the JS port only to physical lines at a record
+   start: with a comment prefix that contains LF they differ (outside comment_ok) *)
+Lemma readers_disagree_lf_prefix :
+  exists c text,
+    run_js_decoded (lite_split (Some [COMMA])) c true [(text, true)] <>
+    jresult_of_result (run_py (lite_split (Some [COMMA])) c 1 [text]).
+Proof.
+  exists {| c_rfc := true; c_comment := Some [97; QT; LF; 98]%N; c_header := false; c_enc := EncNone; c_modifier := None |},
+         [97; QT; LF; 98; QT]%N.
+  vm_compute. discriminate.
+Qed.
